@@ -175,11 +175,12 @@ def run_check(pid: str, tier: str, seed: int, nshards: int) -> int:
         reasons.append("fewer than 2 distinct non-trivial cases")
 
     # ---- replay files ------------------------------------------------------------
-    os.makedirs(os.path.join(HERE, "replays"), exist_ok=True)
+    rpdir = os.environ.get("VERIF_REPLAY_DIR") or os.path.join(HERE, "replays")
+    os.makedirs(rpdir, exist_ok=True)
     vio_lines = []
     seen_details = Counter()
     for n, r in enumerate(violations[:50]):
-        path = os.path.join(HERE, "replays", f"{pid}-{seed}-{tier}-{n}.json")
+        path = os.path.join(rpdir, f"{pid}-{seed}-{tier}-{n}.json")
         with open(path, "w") as f:
             json.dump({"property": pid, "spec": r.get("spec"), "detail": r.get("detail")}, f, indent=1, default=str)
         key = str(r.get("detail"))[:80]
@@ -218,11 +219,12 @@ def run_check(pid: str, tier: str, seed: int, nshards: int) -> int:
         "wall_s": round(wall, 2),
         "violations": len(violations),
     }
-    os.makedirs(os.path.join(HERE, "evidence"), exist_ok=True)
-    tmp = os.path.join(HERE, "evidence", f".{pid}.json.tmp{os.getpid()}")
+    evdir = os.environ.get("VERIF_EVIDENCE_DIR") or os.path.join(HERE, "evidence")
+    os.makedirs(evdir, exist_ok=True)
+    tmp = os.path.join(evdir, f".{pid}.json.tmp{os.getpid()}")
     with open(tmp, "w") as f:
         json.dump(evidence, f, indent=1, default=str)
-    os.replace(tmp, os.path.join(HERE, "evidence", f"{pid}.json"))
+    os.replace(tmp, os.path.join(evdir, f"{pid}.json"))
 
     print(
         f"[{pid} {tier} seed={seed}] cases={evaluations}/{planned} distinct_nontrivial={len(sigs)} "
